@@ -51,6 +51,9 @@ def cur():
 
 
 # --------------------------------------------------------------------------
+RETRY_BUDGET = [2]      # timed-out queries that may be retried with a longer budget, per job (reset by the engine)
+
+
 class Ctx:
     LOGIC = [None]   # set by the runner per job (e.g. 'QF_LRA' for harnesses whose formulas are linear: much faster)
 
@@ -89,7 +92,8 @@ class Ctx:
     def _check(self, *assump):
         t = time.time()
         r = self.solver.check(*assump)
-        if r == z3.unknown and self.timeout_ms and time.time() - t >= 0.5 * self.timeout_ms / 1000.0:
+        if r == z3.unknown and self.timeout_ms and time.time() - t >= 0.5 * self.timeout_ms / 1000.0 and RETRY_BUDGET[0] > 0:
+            RETRY_BUDGET[0] -= 1
             # timed out (possibly only because the machine is loaded): one retry with five times the budget
             self.solver.set('timeout', min(5 * self.timeout_ms, 900000))
             try:
